@@ -8,7 +8,7 @@ import json, os, subprocess, sys, glob, shutil, concurrent.futures as cf
 VERIF = '/verif'
 # which check (and optional --only filter) is responsible for which seed
 TARGET = {
- 'REG-C09-overlap': [('C09', 'OVERLAP_w4')], 'REG-C09-gapfill': [('C09', 'GAP_w16')], 'REG-C01-reader-subbyte': [('C01', 'O2_reader_w4')], 'REG-C01-carry': [('C01', 'O1_packer_w4_2calls')],
+ 'REG-C09-overlap': [('C09', 'OVERLAP_w4')], 'REG-C19-repair-next': [('C19', 'O3_repair')], 'REG-C19-repair-head0': [('C19', 'O3_repair')], 'REG-C09-gapfill': [('C09', 'GAP_w16')], 'REG-C01-reader-subbyte': [('C01', 'O2_reader_w4')], 'REG-C01-carry': [('C01', 'O1_packer_w4_2calls')],
  'C01-m1': [('C01', 'O3_level1')], 'C01-m2': [('C15', 'w8'), ('C01', 'w8')],
  'C08-m1': [('C08', None)], 'C08-m2': [('C08', None)], 'C08-m3': [('C08', None)],
  'C09-m1': [('C09', 'OVERLAP_w8'), ('C09', 'OVERLAP_w32')], 'C09-m2': [('C09', 'GAP_w32')],
@@ -19,7 +19,7 @@ TARGET = {
  'C15-m1': [('C15', 'w4'), ('C15', 'w1')], 'C15-m2': [('C15', 'O2_block')],
  'C16-m1': [('C16', 'w32'), ('C16', 'w64')], 'C16-m2': [('C16', 'REL_SUMMARY')],
  'C18-m1': [('C18', 'sw')], 'C18-m2': [('C18', 'hw')], 'C18-m3': [('C18', 'L7')],
- 'C19-m1': [('C19', 'O2_rd_open')], 'C19-m2': [('C19', None)],
+ 'C19-m1': [('C19', 'O2_rd_open')], 'C19-m2': [('C19', 'O3_repair')],
  'C20-m1': [('C20', 'ALIAS')], 'C20-m2': [('C20', 'KMM')], 'C20-m3': [('C20', 'KMM_f32')],
  'C17-m1': [('C17', None)], 'C17-m2': [('C17', None)], 'C11-m1': [('C11', 'seek')], 'C11-m2': [('C11', 'iterate')],
  'C02-m1': [('C02', None)], 'C02-m2': [('C02', 'LN')],
